@@ -126,7 +126,12 @@ func Apply(ctx context.Context, rc *regclient.RegClient, rSrc ref.Ref, opts ...O
 			if dl.rSrc.IsSet() {
 				rSrc = dl.rSrc
 			}
-			if dl.mod == deleted || len(dl.desc.URLs) > 0 {
+			// a layer is external unless an earlier step (WithExternalURLsRm) removed the URLs
+			external := len(dl.desc.URLs) > 0
+			if dl.newDesc.Digest != "" {
+				external = len(dl.newDesc.URLs) > 0
+			}
+			if dl.mod == deleted || external {
 				// skip deleted and external layers
 				return dl, nil
 			}
